@@ -77,6 +77,7 @@ type Stats struct {
 type Outcome struct {
 	Viol  *Violation   // first violation that is not a listed known finding
 	Known []*Violation // violations attributed to a known finding (Known = its id); the world continued past them
+	Cross []*Violation // violations of other properties than Env.Prop; the world continued past them
 	Infra string
 	Stats Stats
 }
@@ -88,6 +89,10 @@ type Env struct {
 	// Known returns the id of the listed known finding whose trigger holds
 	// for the violating item, or "".
 	Known func(w *World, v *Violation) string
+	// Prop: the property being checked. A violation that does not name it is kept
+	// as a cross finding, the file concerned stops being predicted and the world
+	// goes on, so that it cannot mask a violation of Prop later in the same world.
+	Prop string
 }
 
 // hit records a violation; true means the world stops here.
@@ -98,6 +103,10 @@ func (st *wstate) hit(v *Violation) bool {
 			st.out.Known = append(st.out.Known, v)
 			return false
 		}
+	}
+	if st.env.Prop != "" && !v.Has(st.env.Prop) {
+		st.out.Cross = append(st.out.Cross, v)
+		return false
 	}
 	st.out.Viol = v
 	return true
@@ -371,6 +380,19 @@ func (st *wstate) runLifetime(i int, l *scen.Lifetime) {
 		}
 	}
 	lf := model.NewLife(l)
+	if tasks && anyFault {
+		// concurrent calls are judged task by task, not in real-time order: whatever a
+		// faulted call touched is unpredicted for every call of this lifetime
+		for _, op := range rep.Ops {
+			if faulted[ck{op.Call, op.Exec}] && op.Call >= 0 && op.Path != "" && !strings.HasSuffix(op.Kind, "dir") && op.Kind != "mkdirall" {
+				solo := false
+				if c := lf.Call(op.Call); c != nil {
+					solo = scen.Standalone(c.API)
+				}
+				st.d.MarkDirty(op.Path, solo)
+			}
+		}
+	}
 	updatedAny := false
 	matcherFailAny := false
 	for ci := range rep.Calls {
